@@ -186,3 +186,55 @@ PATTERNS = [
     (re.compile(r'^@_ZNKSt8__detail20_Prime_rehash_policy11_M_next_bktEm$'), x_next_bkt),
     (re.compile(r'^@_ZNKSt8__detail20_Prime_rehash_policy14_M_need_rehashEmmm$'), x_need_rehash),
 ]
+
+# ---- minimal std::ostream / ostringstream content model: inserted text is collected per stream object so that
+# ostringstream::str() returns it (libcola compares CompoundConstraint::toString() against a literal).  Number
+# formatting is approximate ("%g"-like); formatted numbers are never the subject of a claim.
+def _buf(s, os_):
+    if not hasattr(s, 'osbuf') or s.osbuf_owner is not s.objs:
+        s.osbuf = {}; s.osbuf_owner = s.objs
+    return s.osbuf.setdefault((os_.obj, os_.off), [])
+
+def x_os_cstr(s, fr, ins, a):
+    _buf(s, a[0]).extend(ord(c) for c in s.cstring(a[1])); return a[0]
+def x_os_insert(s, fr, ins, a):
+    n = a[2]
+    if isinstance(n, int) and n < (1 << 20): _buf(s, a[0]).extend(_bytes(s, a[1], n))
+    return a[0]
+def x_os_char(s, fr, ins, a):
+    c = a[1]; _buf(s, a[0]).append(c & 0xff if isinstance(c, int) else ord('?')); return a[0]
+def x_os_num(s, fr, ins, a):
+    v = a[1]
+    if isinstance(v, float): t = '%g' % v
+    elif isinstance(v, int):
+        bits = ins.args[1].ty.bits if hasattr(ins.args[1].ty, 'bits') else 64
+        nm = ins.callee.v if ins.callee.kind == 'global' else ''
+        signed = nm.endswith(('Ei', 'El', 'Es', 'Ex')) or 'IlE' in nm or 'IxE' in nm
+        t = str(v - (1 << bits) if signed and v >> (bits - 1) else v)
+    else: t = '?'
+    _buf(s, a[0]).extend(ord(c) for c in t); return a[0]
+def x_oss_str(s, fr, ins, a):
+    from irsym import Ptr
+    out, this = a[0], a[1]
+    bs = list(_buf(s, this))
+    n = len(bs)
+    if n <= 15: p = Ptr(out.obj, out.off + 16)
+    else:
+        o = s.alloc(n + 1, 'heap', name='string'); p = Ptr(o.id, 0)
+        s.store(Ptr(out.obj, out.off + 16), I64, n)
+    s.store(out, P8, p); _putbytes(s, p, bs + [0]); s.store(Ptr(out.obj, out.off + 8), I64, n)
+    return None
+def x_oss_dtor(s, fr, ins, a):
+    if hasattr(s, 'osbuf') and s.osbuf_owner is s.objs: s.osbuf.pop((a[0].obj, a[0].off), None)
+    return None
+
+PATTERNS += [
+    (re.compile(r'^@_ZStlsISt11char_traitsIcEERSt13basic_ostreamIcT_ES5_PKc$'), x_os_cstr),
+    (re.compile(r'^@_ZSt16__ostream_insertIcSt11char_traitsIcEERSt13basic_ostreamIT_T0_ES6_PKS3_l$'), x_os_insert),
+    (re.compile(r'^@_ZStlsISt11char_traitsIcEERSt13basic_ostreamIcT_ES5_c$'), x_os_char),
+    (re.compile(r'^@_ZNSols[EP]?[ijlmxydfbs]$'), x_os_num),
+    (re.compile(r'^@_ZNSolsE[ijlmxydfbs]$'), x_os_num),
+    (re.compile(r'^@_ZNSo9_M_insertI[a-z]EERSoT_$'), x_os_num),
+    (re.compile(r'^@_ZNKSt7__cxx111[89]basic_o?stringstreamIcSt11char_traitsIcESaIcEE3strEv$'), x_oss_str),
+    (re.compile(r'^@_ZNSt7__cxx111[89]basic_o?stringstreamIcSt11char_traitsIcESaIcEED[012]Ev$'), x_oss_dtor),
+]
